@@ -3,6 +3,8 @@ package fam
 import (
 	"bytes"
 	"encoding/json"
+	"go/token"
+	"go/types"
 	"math/rand/v2"
 	"strings"
 
@@ -120,6 +122,18 @@ func typerefRun(s string, self string) typerefObs {
 	tracker := namer.NewDefaultImportTracker()
 	buf := bytes.NewBuffer(nil)
 	sw := gengo.NewSnippetWriter(buf, namer.NameSystems{"raw": namer.NewRawNamer(self, tracker)})
+	// every second reference is rendered into a file that has already named the GENERIC DECLARATION with the root's path and name
+	// (a go/types object with a type parameter): what the file called that object is not what the reference reads
+	if tn, err := gengotypes.ParseRef(s); err == nil && len(s)%2 == 0 && tn.Pkg() != nil && tn.Pkg().Path() != "" && tn.Pkg().Path() != self && token.IsIdentifier(tn.Name()) {
+		core.Try(func() {
+			pkg := types.NewPackage(tn.Pkg().Path(), "p")
+			obj := types.NewTypeName(token.NoPos, pkg, tn.Name(), nil)
+			named := types.NewNamed(obj, types.NewStruct(nil, nil), nil)
+			named.SetTypeParams([]*types.TypeParam{types.NewTypeParam(types.NewTypeName(token.NoPos, pkg, "T", nil), types.NewInterfaceType(nil, nil))})
+			sw.Render(snippet.ID(obj))
+		})
+		buf.Reset()
+	}
 	p3 := core.Try(func() { sw.Render(snippet.ID(s)) })
 	o.RenderPanicked = p3.Panicked
 	o.RenderMsg = p3.Msg
